@@ -44,7 +44,8 @@ def cases(draw):
     ip = dict(pts[0])
     for s_ in spec["state"]:
         ip[s_] = float(draw(st.sampled_from([1, 2, 3] if s_ in spec["positive"] else [-2, -1, 1, 2, 3])))
-    return {"model": spec, "points": pts, "int_point": ip}
+    return {"model": spec, "points": pts, "int_point": ip, "shadow_first": draw(st.sampled_from([False, False, True])),
+            "extra_validation": draw(st.sampled_from([False] * 9 + [True]))}
 
 
 def case(spec, ctx):
@@ -52,11 +53,31 @@ def case(spec, ctx):
     m = spec["model"]
     states = sorted(m["state"])
     built = {}
+    xv = bool(spec.get("extra_validation"))
     with ctx.watchdog(20):
+        if spec.get("shadow_first") and m["control"] and m["calib"]:
+            # another definition with the same expressions and symbol set, control/calibration roles swapped, compiled
+            # in the same process before this one: nothing of it may leak into this model
+            try:
+                models.compile_py_model(models.shadow_of(m, "roles"), common_subexpression_elimination=True)
+                ctx.event("role_swapped_shadow_compiled_first")
+            except Exception:
+                ctx.event("shadow_not_accepted")
         for cse in (True, False):
+            if xv:
+                # extra_validation may legitimately refuse a model (or take long): such a model is not 'accepted'
+                try:
+                    built[cse] = models.compile_py_model(m, common_subexpression_elimination=cse, extra_validation=True)
+                except ctxmod.CaseTimeout:
+                    raise
+                except Exception as e:
+                    ctx.skip(f"extra_validation-refused:{type(e).__name__}")
+                continue
             with ctx.formak("compile", spec):
                 built[cse] = models.compile_py_model(m, common_subexpression_elimination=cse)
         n_temps, nested = models.cse_stats(m)
+    if xv:
+        ctx.event("extra_validation=True")
 
     # layout clause: documented name order
     for cse, model in built.items():
